@@ -158,6 +158,10 @@ def failing_and_colliding_programs():
         "from 0 to 2, k {\n  print k\n}\nfrom 5 to 7, k {\n  print k\n}\nk = \"text\"\nprint k\nw = 0\nwhile w < 2 {\n  q = w * 2\n  w = w + 1\n}\nq = true\nprint q\n"}})
     out.append({"name": "scope:block-local-captured-per-iteration", "entry": "main.ms", "files": {"main.ms":
         "fs: [fn() -> int...] = []\nfrom 0 to 3, i {\n  if i != 1 {\n    v = i * 7\n    fs.push(fn() -> int {\n      return v\n    })\n  }\n}\na = fs[0]\nb = fs[1]\nprint a()\nprint b()\n"}})
+    # both commands give the program the same room: a recursion that fits under `run` fits under `execute`
+    for depth in (30, 45):
+        out.append({"name": "recursion:depth-%d" % depth, "entry": "main.ms", "files": {"main.ms":
+            "sum = fn(n: int) -> int {\n  if n == 0 {\n    return 0\n  }\n  return n + self(n - 1)\n}\nprint sum(5)\nprint sum(%d)\n" % depth}})
     out.append({"name": "collide:same-function-name-in-two-scopes", "entry": "main.ms", "files": {"main.ms":
         "a = fn() -> int {\n  h = fn() -> int { return 1 }\n  return h()\n}\nb = fn() -> int {\n  h = fn() -> int { return 2 }\n  return h()\n}\nprint a()\nprint b()\n"}})
     return out
